@@ -121,6 +121,32 @@ def wl_history(ctx, rng, case, force_width=None):
             except Exception:
                 ret, k = None, None
                 ctx.count("refused_misuse_calls")
+        elif r < 0.957:
+            # a second sketch meets this one in a join and is changed afterwards: an (empty or fed) accumulator that joins this sketch,
+            # or - while this sketch is still empty - a fed sketch that this one joins.  Whatever happens to the OTHER object later
+            # must not move what this one reports (probed below against its own true counts).
+            other = cls(width=s.width, depth=s.depth, **bl.kw_hash(hf))
+            other.query_type = "min"
+            fed = []
+            for _ in range(rng.choice([0, 1, 2])):
+                fed.append((rng.choice(keys), rng.randint(1, 4)))
+                other.add(*fed[-1])
+            if sum(true.values()) == 0 and fed and rng.random() < 0.6:
+                case.op("join-into-empty-self", fed)
+                s.join(other)
+                for ka, na in fed:
+                    true[ka] += na  # what the argument held is now part of this sketch's contents
+            else:
+                case.op("joined-by-another-sketch", fed)
+                other.join(s)
+            for _ in range(rng.randint(1, 3)):
+                kk = rng.choice(keys)
+                if rng.random() < 0.6:
+                    other.add(kk, rng.randint(1, 9))
+                elif other.check(kk) > 0:
+                    other.remove(kk, 1)
+            k, ret = None, None
+            ctx.count("other_sketch_changed_after_a_join")
         elif r < 0.965:
             # a configuration corner: the query type is switched away and back between operations; the counters must not care
             case.op("toggle-query-type")
